@@ -192,6 +192,45 @@ fn parse_arg(s: &str) -> f64 {
     t.parse::<f64>().unwrap_or(f64::NAN)
 }
 
+/// every eval_complex function name and alias (arity 1 and 2), ^, superscripts, ° and rad over real (both signs),
+/// imaginary and generic complex arguments
+fn complex_cases() -> &'static Vec<Case> {
+    static CELL: OnceLock<Vec<Case>> = OnceLock::new();
+    CELL.get_or_init(|| {
+        let args = ["2", "0.5", "(-2)", "(-0.5)", "8", "(-10)", "0.75", "1.5", "i", "(-i)", "2i", "(1+2i)", "(-1+2i)", "(2-0.5i)", "(-3-4i)", "(0.5+0.25i)", "3", "(-3)"];
+        let mut out = Vec::new();
+        let mut push = |s: String| out.push(Case::new(Ev::Cpx, s, Val::default_for(Ev::Cpx)));
+        for f in vocab::funcs(Ev::Cpx) {
+            match f.arity {
+                Arity::One => {
+                    for a in args {
+                        push(format!("{}({})", f.name, a));
+                    }
+                }
+                Arity::Two => {
+                    for a in args {
+                        for b in args {
+                            push(format!("{}({},{})", f.name, a, b));
+                        }
+                    }
+                }
+                _ => {}
+            }
+        }
+        for a in args {
+            push(format!("{}°", a));
+            push(format!("{}rad", a));
+            push(format!("{}²", a));
+            push(format!("{}³", a));
+            for b in args {
+                push(format!("{}^{}", a, b));
+                push(format!("{}/{}", a, b));
+            }
+        }
+        out
+    })
+}
+
 fn grid_cases() -> &'static Vec<Case> {
     static CELL: OnceLock<Vec<Case>> = OnceLock::new();
     CELL.get_or_init(|| {
@@ -292,15 +331,22 @@ impl Prop for C10Prop {
         "C10"
     }
     fn rule(&self) -> String {
-        "Cases are (evaluator, spelling, argument texts): the finite table of every README function name and alias of arity 1 and 2 (ilog excepted; aggregates are C11; complex functions are C08), the postfix operators !, ° and rad, the ⌊⌋ ⌈⌉ brackets and the constants, per evaluator (about 170 pairs) x a fixed grid of about 65 decimal-string arguments over each domain incl. edges, halves, large and negative values (arity 2: grid^2 thinned), exhaustive; then random arguments with log-uniform magnitudes (<= 8 significant digits, so every evaluator reads exactly the same number). Oracles: exact functions compared exactly (round ties away from zero, ties to even in eval_decimal; sgn(0)=0; n! exact for n<=22); the others within 1e-9 relative of the host libm on the same argument (tgamma for non-integer factorials, skipping points within 0.01 of a pole); eval_i64 real-valued functions within 1 of the real result when below 2^53; Lambert W by its defining identity w*e^w = x within 1e-9*max(|x|,1e-300) and w >= -1; constants bit-exact (f64, number) / 1e-27 (decimal). non-trivial (discriminating) = the expected value differs by more than 1e-6 relative from the argument(s) and from the value of at least three quarters of the other same-arity functions of that evaluator defined at that point (Lambert W and constants always count); distinct by (evaluator, input).".into()
+        "Cases are (evaluator, spelling, argument texts): the finite table of every README function name and alias of arity 1 and 2 (ilog excepted; aggregates are C11; eval_complex: sub-check `complex`, every name/alias, ^, superscripts, ° and rad over real arguments of both signs, imaginary and generic complex arguments, judged by C08's principal-branch reference at 1e-9, either one-sided limit accepted exactly on a cut), the postfix operators !, ° and rad, the ⌊⌋ ⌈⌉ brackets and the constants, per evaluator (about 170 pairs) x a fixed grid of about 65 decimal-string arguments over each domain incl. edges, halves, large and negative values (arity 2: grid^2 thinned), exhaustive; then random arguments with log-uniform magnitudes (<= 8 significant digits, so every evaluator reads exactly the same number). Oracles: exact functions compared exactly (round ties away from zero, ties to even in eval_decimal; sgn(0)=0; n! exact for n<=22); the others within 1e-9 relative of the host libm on the same argument (tgamma for non-integer factorials, skipping points within 0.01 of a pole); eval_i64 real-valued functions within 1 of the real result when below 2^53; Lambert W by its defining identity w*e^w = x within 1e-9*max(|x|,1e-300) and w >= -1; constants bit-exact (f64, number) / 1e-27 (decimal). non-trivial (discriminating) = the expected value differs by more than 1e-6 relative from the argument(s) and from the value of at least three quarters of the other same-arity functions of that evaluator defined at that point (Lambert W and constants always count); distinct by (evaluator, input).".into()
     }
     fn assumptions(&self) -> Vec<String> {
         vec!["the host libm (glibc through Rust std, tgamma through FFI) is the reference for the approximate functions".into()]
     }
     fn subs(&self, tier: Tier) -> Vec<Sub> {
-        vec![Sub { name: "grid", kind: SubKind::Enum { count: grid_cases().len() as u64 } }, Sub { name: "random", kind: SubKind::Random { cases: tier.pick(600_000, 30_000_000), len: 24 } }]
+        vec![
+            Sub { name: "grid", kind: SubKind::Enum { count: grid_cases().len() as u64 } },
+            Sub { name: "complex", kind: SubKind::Enum { count: complex_cases().len() as u64 } },
+            Sub { name: "random", kind: SubKind::Random { cases: tier.pick(600_000, 30_000_000), len: 24 } },
+        ]
     }
-    fn gen_enum(&self, _sub: &str, idx: u64, _tier: Tier) -> Option<Case> {
+    fn gen_enum(&self, sub: &str, idx: u64, _tier: Tier) -> Option<Case> {
+        if sub == "complex" {
+            return complex_cases().get(idx as usize).cloned();
+        }
         grid_cases().get(idx as usize).cloned()
     }
     fn gen(&self, _sub: &str, c: &mut dyn Choices) -> Option<Case> {
@@ -313,7 +359,11 @@ impl Prop for C10Prop {
         case.aux.extend(args);
         Some(case)
     }
-    fn check(&self, _sub: &str, case: &Case, sc: &mut ShardCtx) -> Result<(), Failure> {
+    fn check(&self, sub: &str, case: &Case, sc: &mut ShardCtx) -> Result<(), Failure> {
+        if sub == "complex" {
+            // eval_complex offers these names too: principal-branch definitions (C08's reference and tolerance)
+            return super::c08::C08.check("root", case, sc);
+        }
         let ti: usize = case.aux.first().and_then(|s| s.parse().ok()).unwrap_or(usize::MAX);
         let en = match table().get(ti) {
             Some(e) => e,
